@@ -140,6 +140,10 @@ mod std_part {
                 if reg.size() != q.size || reg.prot() != q.prot || reg.flags() != q.flags || !reg.owned() || reg.file_offset().map(|f| f.start()) != q.file_len.map(|_| q.offset) || reg.len() != q.size {
                     v("region-attributes-differ-from-request", jobj! {"req" => J::dbg(q), "size" => reg.size(), "prot" => reg.prot(), "flags" => reg.flags(), "owned" => reg.owned()});
                 }
+                let want_hint = if via >= 2 { Some(via % 2 == 0) } else { None };
+                if reg.is_hugetlbfs() != want_hint {
+                    v("hugetlbfs-hint-differs-from-request", jobj! {"req" => J::dbg(q), "got" => J::dbg(&reg.is_hugetlbfs()), "want" => J::dbg(&want_hint)});
+                }
                 // exactly one mapping of exactly the request
                 let okmap = log.iter().filter(|e| matches!(e, Ev::Mmap { .. })).count() == 1
                     && matches!(log.iter().find(|e| matches!(e, Ev::Mmap { .. })), Some(Ev::Mmap { len, prot, flags, fd, off, ret, errno: 0, .. })
@@ -243,7 +247,24 @@ mod std_part {
             for size in [0usize, 1, 100, 4096] {
                 let p = unsafe { base.add(delta) };
                 interpose::arm();
-                let res = guarded(|| unsafe { MmapRegion::<()>::build_raw(p, size, libc::PROT_READ | libc::PROT_WRITE, libc::MAP_PRIVATE | libc::MAP_ANONYMOUS) });
+                // directly, or through the builder (optionally with further settings that must not
+                // turn the request into one that maps anything)
+                let route = (delta / 7 + size) % 3;
+                let res = guarded(|| unsafe {
+                    match route {
+                        0 => MmapRegion::<()>::build_raw(p, size, libc::PROT_READ | libc::PROT_WRITE, libc::MAP_PRIVATE | libc::MAP_ANONYMOUS),
+                        1 => MmapRegionBuilder::<()>::new(size)
+                            .with_raw_mmap_pointer(p)
+                            .with_mmap_prot(libc::PROT_READ | libc::PROT_WRITE)
+                            .with_mmap_flags(libc::MAP_PRIVATE | libc::MAP_ANONYMOUS)
+                            .build(),
+                        _ => MmapRegionBuilder::<()>::new(size)
+                            .with_mmap_prot(libc::PROT_READ | libc::PROT_WRITE)
+                            .with_hugetlbfs(true)
+                            .with_raw_mmap_pointer(p)
+                            .build(),
+                    }
+                });
                 let log = interpose::disarm();
                 let aligned = delta % 4096 == 0;
                 match res {
@@ -471,6 +492,19 @@ mod xen_part {
                         } else {
                             None
                         };
+                        // the public flag predicates agree with the same reading of the bits
+                        match MmapXenFlags::from_bits(w) {
+                            None => {
+                                if valid_bits {
+                                    v("xen/flag-predicates/known-bits-not-parsed", jobj! {"flags" => w});
+                                }
+                            }
+                            Some(fl) => {
+                                if !valid_bits || fl.is_valid() != valid || (valid && (fl.is_unix() != unix || fl.is_grant() != grant || fl.is_foreign() != foreign || fl.mmap_in_advance() == noadv)) {
+                                    v("xen/flag-predicates", jobj! {"flags" => w, "is_valid" => fl.is_valid(), "is_unix" => fl.is_unix(), "is_grant" => fl.is_grant(), "is_foreign" => fl.is_foreign(), "mmap_in_advance" => fl.mmap_in_advance()});
+                                }
+                            }
+                        }
                         let mut range = MmapRange::new(size, fo, GuestAddress(0x10000), w, 7);
                         if let Some(f) = mflags {
                             range.set_flags(f);
